@@ -29,6 +29,11 @@ struct Outcome
 };
 Outcome guarded_embed(std::vector<int>& indices, VCallbacks& cb, tapkee::ParametersSet params);
 
+// One output variable per thread that every harness call assigns its result over, the way a caller that reuses one variable
+// does (`result = tapkee::embed(...)`): whatever the assignment leaves behind from the previous result (e.g. the projection
+// of an earlier projecting method) becomes visible to the checks of the next call.
+tapkee::TapkeeOutput& carried_output();
+
 // classify the in-flight exception (call inside catch(...))
 void classify_current_exception(Outcome& o);
 } // namespace vh
